@@ -490,6 +490,15 @@ class Body:
                 st.append(s)
         return seen
 
+    def loop_heads(self):
+        """Targets of back edges (an edge whose target dominates its source)."""
+        heads = set()
+        for b in self.reachable():
+            for _, s in self.succs(b):
+                if self.dominates(s, b):
+                    heads.add(s)
+        return heads
+
     def return_blocks(self):
         return [b for b in self.reachable() if self.blocks[b].term.t == "return"]
 
@@ -498,6 +507,13 @@ class Body:
         for b in sorted(self.reachable()):
             t = self.blocks[b].term
             if t.t == "call" and (not names or t.is_call(*names)):
+                yield b, t
+
+    def calls_re(self, regex):
+        rx = re.compile(regex)
+        for b in sorted(self.reachable()):
+            t = self.blocks[b].term
+            if t.t == "call" and t.callee and (rx.search(t.ckey or "") or rx.search(t.tkey or "")):
                 yield b, t
 
     def all_terms(self):
